@@ -712,6 +712,29 @@ func schedOp(w *schedWorld, name string) func() string {
 			}
 			return "accepted-as-signed"
 		}
+	case "ResolveKeys":
+		// public keys of principals of every algorithm, resolved from their did:keys by several
+		// callers at once (each resolution gives the key of ITS identifier)
+		var out []string
+		for _, alg := range []string{"p256", "p256", "p384", "p521", "ed25519", "secp256k1"} {
+			for k := 0; k < 2; k++ {
+				ent := key(normPrincipal(Principal{alg, (k + len(arg)) % 2}))
+				d, err := did.Parse(ent.id.String())
+				if err != nil {
+					out = append(out, "parse:"+err.Error())
+					continue
+				}
+				pk, err := d.PubKey()
+				if err != nil || pk == nil {
+					out = append(out, "pubkey:"+errStr(err))
+					continue
+				}
+				raw, _ := pk.Raw()
+				want, _ := ent.priv.GetPublic().Raw()
+				out = append(out, fmt.Sprint(bytes.Equal(raw, want)))
+			}
+		}
+		return func() string { return strings.Join(out, ",") }
 	case "PrincipalChurn":
 		// a long-running service: a few hundred other principals are parsed, resolved and printed
 		// (whatever the library remembers of them must not change what the shared tokens say)
@@ -1262,7 +1285,8 @@ func genSched(r *Rand, g GenCfg) Plan {
 		// decoders only, honest and forged bytes of the same token side by side
 		invOps, dlgOps = decodeOps, decodeOps
 	} else {
-		invOps = append(invOps, "EncryptOwn", "StreamSealUnseal", "PrincipalChurn")
+		invOps = append(invOps, "EncryptOwn", "StreamSealUnseal", "PrincipalChurn", "ResolveKeys", "ResolveKeys")
+		dlgOps = append(dlgOps, "ResolveKeys")
 		dlgOps = append(dlgOps, "StreamSealUnseal")
 		invOps = append(invOps, "DecodeSealed", "DecodeForged", "DecodeContainer")
 		dlgOps = append(dlgOps, "DecodeSealed", "DecodeForged", "DecodeTyped")
@@ -1296,6 +1320,8 @@ func genSched(r *Rand, g GenCfg) Plan {
 				name += ":" + fmt.Sprintf("g%d", g)
 			case "PrincipalChurn":
 				name += ":" + fmt.Sprintf("g%d-%d", g, i)
+			case "ResolveKeys":
+				name += ":" + strings.Repeat("x", g%2)
 			}
 			p.Ops[g] = append(p.Ops[g], name)
 		}
